@@ -345,17 +345,48 @@ func runCase(out *childOut, idx int, id int, c vt.Case) {
 	}
 	lc := &lossyCache{m: map[string][]byte{}, rnd: rand.New(rand.NewSource(cseed + 17)), drop: vt.Int(c["drop"])}
 	rec := &recBucket{Bucket: raw}
-	cfg := cache.NewCachingBucketConfig()
-	all := func(string) bool { return true }
-	const ttl = time.Hour
-	cfg.CacheGetRange("range", lc, all, S, ttl, ttl, M)
-	cfg.CacheGet("get", lc, all, mc, ttl, ttl, ttl)
-	cfg.CacheExists("exists", lc, all, ttl, ttl)
-	cfg.CacheAttributes("attrs", lc, all, ttl)
-	cfg.CacheIter("iter", lc, all, ttl, storecache.JSONIterCodec{}, "h")
-	cb, err := storecache.NewCachingBucket(rec, cfg, log.NewNopLogger(), nil)
-	if err != nil {
-		panic(err)
+	var cb objstore.Bucket
+	yamlBackend := vt.Str(c["backend"]) == "yaml"
+	if yamlBackend {
+		// exactly what the store gateway builds from --store.caching-bucket.config, with the real
+		// in-memory cache backend (LRU with max size / max item size, TTLs on real time)
+		ttl := "1h"
+		if ms := vt.Int(c["ttl_ms"]); ms > 0 {
+			ttl = fmt.Sprintf("%dms", ms)
+		}
+		y := fmt.Sprintf(`type: IN-MEMORY
+config:
+  max_size: %d
+  max_item_size: %d
+chunk_subrange_size: %d
+max_chunks_get_range_requests: %d
+metafile_max_size: %d
+chunk_object_attrs_ttl: %s
+chunk_subrange_ttl: %s
+blocks_iter_ttl: %s
+metafile_exists_ttl: %s
+metafile_doesnt_exist_ttl: %s
+metafile_content_ttl: %s
+`, vt.Int(c["max_size"]), vt.Int(c["max_item"]), S, M, mc, ttl, ttl, ttl, ttl, ttl, ttl)
+		b, err := storecache.NewCachingBucketFromYaml([]byte(y), rec, log.NewNopLogger(), nil, nil, "verif")
+		if err != nil {
+			panic(err)
+		}
+		cb = b
+	} else {
+		cfg := cache.NewCachingBucketConfig()
+		all := func(string) bool { return true }
+		const ttl = time.Hour
+		cfg.CacheGetRange("range", lc, all, S, ttl, ttl, M)
+		cfg.CacheGet("get", lc, all, mc, ttl, ttl, ttl)
+		cfg.CacheExists("exists", lc, all, ttl, ttl)
+		cfg.CacheAttributes("attrs", lc, all, ttl)
+		cfg.CacheIter("iter", lc, all, ttl, storecache.JSONIterCodec{}, "h")
+		b, err := storecache.NewCachingBucket(rec, cfg, log.NewNopLogger(), nil)
+		if err != nil {
+			panic(err)
+		}
+		cb = b
 	}
 	// the first line of a case carries its input (for replay); a case without reads gets a header
 	first := true
@@ -379,9 +410,40 @@ func runCase(out *childOut, idx int, id int, c vt.Case) {
 		}
 		quiet := vt.Bool(op["quiet"]) // priming read of a TLC case: executed, logged only if it dies
 		hit, attr := lc.snapshot(name, size, S)
-		ev := map[string]any{"ev": "op", "case": id, "i": i, "op": op["op"], "name": name, "off": op["off"], "len": op["len"],
-			"read": op["read"], "rec": op["rec"], "size": size, "S": S, "M": M, "hit": hit, "attrhit": attr,
-			"want": doOp(raw, op), "got": answer("panic", nil, "", nil, "the process died inside this read"), "breqs": [][]int64{}}
+		mk := func(o map[string]any, snap bool) map[string]any {
+			return map[string]any{"ev": "op", "case": id, "i": i, "op": o["op"], "name": name, "off": o["off"], "len": o["len"],
+				"read": o["read"], "rec": o["rec"], "size": size, "S": S, "M": M, "hit": hit, "attrhit": attr, "snap": snap,
+				"want": doOp(raw, o), "got": answer("panic", nil, "", nil, "the process died inside this read"), "breqs": [][]int64{}}
+		}
+		if vt.Str(op["op"]) == "pgetrange" {
+			// several GetRange calls on the same object at the same time (overlapping ranges, possibly a
+			// cold cache): every one must answer like the bucket.  One line per call; no model conformance.
+			var evs []map[string]any
+			for _, r := range vt.List(op["ranges"]) {
+				rr := vt.Ints(r)
+				evs = append(evs, mk(fullOp(map[string]any{"op": "getrange", "name": name, "off": rr[0], "len": rr[1]}), false))
+			}
+			if len(evs) == 0 {
+				continue
+			}
+			evs[0] = head(evs[0])
+			out.pending(idx, evs[0])
+			var wg sync.WaitGroup
+			for k := range evs {
+				wg.Add(1)
+				go func(ev map[string]any) {
+					defer wg.Done()
+					ev["got"] = doOp(cb, map[string]any{"op": "getrange", "name": name, "off": ev["off"], "len": ev["len"]})
+				}(evs[k])
+			}
+			wg.Wait()
+			rec.take()
+			for _, ev := range evs {
+				out.line(ev)
+			}
+			continue
+		}
+		ev := mk(op, !yamlBackend)
 		if quiet {
 			ev["in"], ev["kf"] = c, ""
 			out.pending(idx, ev)
@@ -553,6 +615,112 @@ func genCases(t *testing.T) []vt.Case {
 					}
 				}
 				ops = append(ops, evictOp(kinds, []string{"*", nm}[rnd.Intn(2)], except))
+			}
+		}
+		c["ops"] = ops
+		out = append(out, c)
+	}
+	// store-gateway configuration (NewCachingBucketFromYaml) over the real in-memory cache backend:
+	// block-shaped object names so that the chunks / meta.json / deletion-mark.json / root-Iter rules
+	// match; a tiny LRU (real evictions, items above max_item_size are never cached), sometimes
+	// millisecond TTLs (entries expire on real time: just another way of losing entries).
+	blocks := []string{"01ARZ3NDEKTSV4RRFFQ69G5FAV", "01BX5ZZKBKACTAV9WEVGEMMVRZ"}
+	ynames := []string{}
+	for _, b := range blocks {
+		ynames = append(ynames, b+"/chunks/000001", b+"/chunks/000002", b+"/meta.json", b+"/deletion-mark.json", b+"/index")
+	}
+	nyaml := vt.Pick(60, 1200)
+	for i := 0; i < nyaml; i++ {
+		S := []int{1, 3, 16, 100, 1000, 16000}[rnd.Intn(6)]
+		maxSize := 40 * S
+		objs := map[string]any{}
+		var present []string
+		for _, nm := range ynames {
+			if rnd.Intn(3) == 0 {
+				continue // absent (e.g. no deletion mark)
+			}
+			sz := rnd.Intn(maxSize + 1)
+			if rnd.Intn(4) == 0 {
+				sz = S * rnd.Intn(6)
+			}
+			objs[nm] = sz
+			present = append(present, nm)
+		}
+		maxItem := []int{S / 2, S, 4 * S, 1 << 20}[rnd.Intn(4)]
+		if maxItem < 1 {
+			maxItem = 1
+		}
+		maxCache := maxItem * (1 + rnd.Intn(8))
+		if rnd.Intn(3) == 0 {
+			maxCache = 1 << 24
+			if maxItem > maxCache {
+				maxItem = maxCache
+			}
+		}
+		c := vt.Case{"src": "yaml", "backend": "yaml", "objs": objs, "S": S, "M": []int{0, 1, 2, 3}[rnd.Intn(4)],
+			"mc": []int{1, 100, 1 << 20}[rnd.Intn(3)], "drop": 0, "cseed": rnd.Int63n(1 << 40),
+			"max_size": maxCache, "max_item": maxItem, "ttl_ms": []int{0, 0, 0, 2}[rnd.Intn(4)]}
+		var ops []any
+		for j, nops := 0, 6+rnd.Intn(20); j < nops; j++ {
+			nm := ynames[rnd.Intn(len(ynames))]
+			if len(present) > 0 && rnd.Intn(4) > 0 {
+				nm = present[rnd.Intn(len(present))]
+			}
+			sz := 0
+			if v, ok := objs[nm]; ok {
+				sz = v.(int)
+			}
+			rng := func() []int {
+				off := rnd.Intn(sz + S + 1)
+				if rnd.Intn(3) == 0 {
+					off = S * rnd.Intn(sz/S+2)
+				}
+				return []int{off, 1 + rnd.Intn(sz+2*S)}
+			}
+			switch r := rnd.Intn(20); {
+			case r < 7:
+				rr := rng()
+				ops = append(ops, map[string]any{"op": "getrange", "name": nm, "off": rr[0], "len": rr[1]})
+			case r < 10:
+				var rs []any
+				for k, n := 0, 2+rnd.Intn(4); k < n; k++ {
+					rs = append(rs, rng())
+				}
+				ops = append(ops, map[string]any{"op": "pgetrange", "name": nm, "ranges": rs})
+			case r < 13:
+				rd := -1
+				if rnd.Intn(3) == 0 {
+					rd = rnd.Intn(sz + 2)
+				}
+				ops = append(ops, map[string]any{"op": "get", "name": nm, "read": rd})
+			case r < 16:
+				ops = append(ops, map[string]any{"op": "exists", "name": nm})
+			case r < 18:
+				ops = append(ops, map[string]any{"op": "attrs", "name": nm})
+			default:
+				ops = append(ops, map[string]any{"op": "iter", "name": []string{"", "", blocks[0] + "/", blocks[1] + "/chunks/"}[rnd.Intn(4)], "rec": rnd.Intn(3) == 0})
+			}
+		}
+		c["ops"] = ops
+		out = append(out, c)
+	}
+	// concurrent overlapping GetRange calls through the lossy test cache (cold and partly warm)
+	nconc := vt.Pick(60, 1200)
+	for i := 0; i < nconc; i++ {
+		S := []int{1, 2, 3, 7, 100, 16000}[rnd.Intn(6)]
+		sz := rnd.Intn(30*S + 1)
+		c := vt.Case{"src": "conc", "objs": map[string]any{"a": sz}, "S": S, "M": []int{0, 1, 2, 3}[rnd.Intn(4)], "mc": 0,
+			"drop": []int{0, 0, 30}[rnd.Intn(3)], "cseed": rnd.Int63n(1 << 40)}
+		var ops []any
+		for j, n := 0, 1+rnd.Intn(3); j < n; j++ {
+			var rs []any
+			for k, m := 0, 2+rnd.Intn(5); k < m; k++ {
+				off := rnd.Intn(sz + 1)
+				rs = append(rs, []int{off, 1 + rnd.Intn(sz-off+S)})
+			}
+			ops = append(ops, map[string]any{"op": "pgetrange", "name": "a", "ranges": rs})
+			if rnd.Intn(2) == 0 {
+				ops = append(ops, evictOp([]string{[]string{"subrange", "attrs", "all"}[rnd.Intn(3)]}, "*", nil))
 			}
 		}
 		c["ops"] = ops
